@@ -1,14 +1,19 @@
 import MiniconfVerif.Lemmas.IterRoot
+import MiniconfVerif.Lemmas.IterGen
 import MiniconfVerif.Lemmas.Factor
 
 /-! # C11 — rooted and depth-limited iteration is exact, finite and fused
 
-Proved here: fusedness for every state; exactness, termination and the exact-size counter for
-iteration from the tree root with a depth limit `D ≥ max_depth` and a target that does not
-run out of capacity (from the enumeration theorem of C03); exactness of iteration rooted at any
-node given by any key (simulation: the rooted iterator is the subtree's iterator with the root
-path prefixed and all depths shifted).  Depth limits below `max_depth` and targets without
-capacity are covered by the correspondence and oracle runs only (see DESIGN.md §11.3). -/
+Proved here, for every well-formed type: fusedness for every state; `limited_exact` — for *every*
+depth limit `D` and *every* target whose callbacks do not panic, polling yields exactly the
+leaves of depth ≤ `D` and the internal nodes at depth `D` (`depth_limited_items`), in order,
+each once; a node whose key the target cannot hold is reported as `Err(depth)` with the depth of
+the refused key, and the iteration still continues with every other node and terminates; `None`
+for ever after; the exact-size counter; iteration rooted at any node given by any key
+(simulation: the rooted iterator is the subtree's iterator with the root path prefixed and all
+depths shifted).  The combination "rooted *and* limited below the subtree's depth / without
+capacity" follows from the same two lemmas (`poll_lift`, `poll_init_G`) but is not stated as a
+theorem of its own; it is covered by the runs. -/
 namespace MiniconfVerif.C11
 open MiniconfVerif
 
@@ -42,6 +47,28 @@ theorem full_depth_exact (s : Schema) (hwf : s.WF) (hsm : s.Small) (D : Nat) (hD
   rcases hm' with ⟨_, _, h1⟩ | ⟨_, h2⟩
   · cases h1
   · cases h2
+
+/-- **Depth-limited iteration and targets without capacity**: for every depth limit `D` and every
+target whose callbacks do not panic, polling a fresh iterator `n` times yields, in order, one
+item per leaf of the type cut off at depth `D` — the node (leaf, or internal node at depth `D`)
+with the transcoded target, or `Err(depth)` where the target refused the key at that depth — and
+`None` from then on, for every `n`; no call needs more than `D + 2` loop passes and no panic
+site is reached. -/
+theorem limited_exact (s : Schema) (hwf : s.WF) (hsm : s.Small) (D : Nat) (fresh : Target) (hnp : NoCbPanic s fresh)
+    (n : Nat) :
+    (IterSt.init D).poll s D fresh n =
+      (((s.trunc D).leaves.map fun P => Polled.item (cutItem s fresh P)) ++ List.replicate n Polled.finished).take n :=
+  poll_init_G s hwf hsm D fresh hnp n
+
+/-- which nodes those are: exactly the leaves of depth at most `D` and the internal nodes at depth `D` -/
+theorem depth_limited_items (s : Schema) (D : Nat) (P : List Nat) :
+    P ∈ (s.trunc D).leaves ↔ ∃ t, s.at? P = some t ∧ P.length ≤ D ∧ (t.isLeaf = true ∨ P.length = D) :=
+  mem_trunc_leaves s D P
+
+/-- the hypothesis holds for `()` and for index arrays of *any* capacity (too small ones produce
+`Err(depth)` items) -/
+theorem targets_do_not_panic (s : Schema) (cap m : Nat) : NoCbPanic s .unit ∧ NoCbPanic s (.idx [] cap m) :=
+  ⟨noCbPanic_unit s, noCbPanic_idx s cap m⟩
 
 /-- **Rooted iteration is exact**, for a root given by *any* key source: if `root(keys)` succeeds
 it has selected the node at some path `c`; polling then yields exactly the leaves at or below
@@ -144,6 +171,13 @@ theorem exact_size_remaining (s : Schema) (hwf : s.WF) (hsm : s.Small) (D : Nat)
 def ex : Schema := .node (.named ["foo", "bar", "baz"]) [.leaf, .array 3 .leaf, .leaf]
 example : (IterSt.init 2).next ex 2 (.idx [] 1 (2^64-1)) 5 =
     some (.yield (.node (.idx [0] 1 (2^64-1)) (.leaf 1)) ⟨[0, 0], 0, 1⟩) := by decide +kernel
+-- depth limit 1: the array is reported as an internal node; index capacity 0: every node is `Err(1)`
+example : (IterSt.init 1).poll ex 1 .unit 5 =
+    [.item (.node .unit (.leaf 1)), .item (.node .unit (.internal 1)), .item (.node .unit (.leaf 1)), .finished, .finished] := by
+  decide +kernel
+example : (IterSt.init 2).poll ex 2 (.idx [] 1 100) 7 =
+    [.item (.node (.idx [0] 1 100) (.leaf 1)), .item (.capErr 2), .item (.capErr 2), .item (.capErr 2),
+     .item (.node (.idx [2] 1 100) (.leaf 1)), .finished, .finished] := by decide +kernel
 example : exactCounts ((IterSt.init 2).poll ex 2 .unit 7) ex.meta.count =
     [some 4, some 3, some 2, some 1, some 0, some 0, some 0] := by decide +kernel
 
